@@ -35,7 +35,7 @@ RULE = (
 ASSUMPTIONS = ["OpenAPI 3.0 / 3.1 documents and their Swagger 2.0 rendering (cookie parameters become formData, requestBody becomes an `in: body` parameter with operation-level or global `consumes`)", "unknown `in` values are not generated (dropped on purpose by add_parameter)"]
 
 LOCS = ["query", "header", "cookie", "path"]
-NAMES = ["id", "q", "X-A", "X-Key", "api_key"]  # the last two are also the names of the security schemes' parameters
+NAMES = ["id", "q", "Q", "X-A", "X-Key", "api_key"]  # the last two are also the names of the security schemes' parameters
 METHODS = ["get", "post", "put", "delete"]
 SCHEMAS = [{"type": "integer"}, {"type": "string"}, {"type": "string", "enum": ["a"]}, {"type": "boolean"}, {"type": "integer", "minimum": 5}, {"type": "string", "format": "date", "enum": ["2020-01-01"], "example": "2020-01-01"}]
 
@@ -44,6 +44,8 @@ SCHEMAS = [{"type": "integer"}, {"type": "string"}, {"type": "string", "enum": [
 def param(draw, loc=None, name=None):
     loc = loc or draw(st.sampled_from(LOCS))
     name = name or draw(st.sampled_from(NAMES))
+    if loc == "header" and name == "Q":
+        name = "q"  # `q` and `Q` are two parameters in the query and in cookies; header names are case-insensitive
     p = {"name": name, "in": loc, "schema": dict(draw(st.sampled_from(SCHEMAS)))}
     if loc == "path" or draw(st.booleans()):
         p["required"] = True
